@@ -217,3 +217,6 @@ def finish(stats, tier):
     if not c.get("names"):
         out.append("no file name explored")
     return out
+
+
+RULE += ' Since rounds 10-11 also: lengths above 2^53; control sequences (CSI/ANSI) inside command arguments; command lines of 40 000 bytes of 2-, 3-, 4-byte characters in every alignment; the binary round trip under eight environments of `group`.'
